@@ -28,6 +28,7 @@ type c07Case struct {
 	Recip     string `json:"recipient_cert"` // "", "KS", "KX", "garbage"
 	DataAlg   int    `json:"data_alg"`
 	Detached  bool   `json:"detached_key,omitempty"`
+	Setter    bool   `json:"key_through_setter,omitempty"` // SP key given through SetSPKeyStore only
 }
 
 func c07Spec(c c07Case, encrypted bool) idp.ResponseSpec {
@@ -61,6 +62,9 @@ func c07Exec(c c07Case) (keys []string, detail, class string) {
 func c07ExecOn(c c07Case, live *saml2.SAMLServiceProvider) (keys []string, detail, class string) {
 	ck := c02Clocks[c.Clock]
 	conf := world.SPConf{Store: []string{"K2"}, ClockNs: int64(ck.Off), ValidateEncCert: c.Validate, EncCertState: c.CertState}
+	if c.Setter {
+		conf.EncField, conf.EncSetter = "-", "KS"
+	}
 	enc := idp.RenderResponse(c07Spec(c, true))
 	twin := idp.RenderResponse(c07Spec(c, false))
 	sp := conf.Build()
@@ -68,6 +72,19 @@ func c07ExecOn(c c07Case, live *saml2.SAMLServiceProvider) (keys []string, detai
 		live.Clock = sp.Clock
 		live.ValidateEncryptionCert = sp.ValidateEncryptionCert
 		live.SPKeyStore = sp.SPKeyStore
+		if c.Setter {
+			live.SPKeyStore = nil
+			ks := world.SetterKeyStore("KS")
+			switch c.CertState {
+			case "empty":
+				ks.Cert = []byte{}
+			case "garbage":
+				ks.Cert = []byte("this is not a DER certificate")
+			}
+			live.SetSPKeyStore(ks)
+		} else {
+			live.SetSPKeyStore(nil)
+		}
 		sp = live
 	}
 	resp, r := validateResponse(sp, enc)
@@ -147,7 +164,7 @@ func c07Replay(raw json.RawMessage) ([]string, string) {
 }
 
 func c07Run(r *mc.Run) {
-	r.Rule = "Part A: the attacker BFS and tree enumeration of C01 (encrypt operator over 8 algorithm/recipient variants at every assertion; X(G)/X(E) tree labels), judged by the pool and direct-child invariants. Part B: full product placement(2) x ValidateEncryptionCert(2) x clock position(11) x SP certificate state(3) x recipient certificate(4) x data algorithm(5) x EncryptedKey placement(2: inline, detached). non-trivial = decryption was attempted (an EncryptedAssertion reached the decrypt step) or the state was accepted; distinct = distinct (input, configuration)"
+	r.Rule = "Part A: the attacker BFS and tree enumeration of C01 (encrypt operator over 8 algorithm/recipient variants at every assertion; X(G)/X(E) tree labels), judged by the pool and direct-child invariants. Part B: full product placement(2) x ValidateEncryptionCert(2) x clock position(11) x SP certificate state(3) x recipient certificate(4) x data algorithm(5) x EncryptedKey placement(2: inline, detached) x SP key API(2: SPKeyStore field, SetSPKeyStore). non-trivial = decryption was attempted (an EncryptedAssertion reached the decrypt step) or the state was accepted; distinct = distinct (input, configuration)"
 	r.Assume("RSA/ECDSA unforgeable", "the harness's own XML-Enc encryptor/decryptor (idp/enc.go)")
 	var cases []c07Case
 	n, _ := mc.Enumerate(-1, r.Expired, func(ch *mc.Chooser) {
@@ -159,6 +176,7 @@ func c07Run(r *mc.Run) {
 		c.Recip = []string{"", "KS", "KX", "garbage"}[ch.Choose("recip", 4)]
 		c.DataAlg = ch.Choose("dataalg", len(idp.AllDataAlgs))
 		c.Detached = ch.Bool("detached")
+		c.Setter = ch.Bool("setter")
 		cases = append(cases, c)
 	})
 	r.Set("partB_choice_vectors", n)
@@ -183,7 +201,7 @@ func c07Run(r *mc.Run) {
 	groups := map[string][]c07Case{}
 	var order []string
 	for _, c := range cases {
-		k := fmt.Sprintf("%s/%s/%d/%v", c.Placement, c.Recip, c.DataAlg, c.Detached)
+		k := fmt.Sprintf("%s/%s/%d/%v/%v", c.Placement, c.Recip, c.DataAlg, c.Detached, c.Setter)
 		if _, ok := groups[k]; !ok {
 			order = append(order, k)
 		}
